@@ -10,7 +10,7 @@ func seqBack(minfree, block int, cookie string, preserve bool, ips ...string) []
 
 // CorpusC02 holds the minimal inputs of past failures; they run first forever.
 func CorpusC02() []*Input {
-	return []*Input{
+	in := []*Input{
 		// preserved cookie: scale 2 -> 1 -> 2 left `cookie srv002` in the file of a server running with cookie srv003
 		{Steps: []Step{{Backs: seqBack(1, 1, "SRV", true, "10.0.0.1", "10.0.0.2")}, {Backs: seqBack(1, 1, "SRV", true, "10.0.0.1")},
 			{Backs: seqBack(1, 1, "SRV", true, "10.0.0.1", "10.0.0.9")}}},
@@ -18,6 +18,30 @@ func CorpusC02() []*Input {
 		{Steps: []Step{{Backs: seqBack(0, 1, "", false, "10.0.0.1", "10.0.0.1")}, {Backs: seqBack(0, 1, "", false, "10.0.0.1", "10.0.0.2")}}},
 		// the same with free slots: one server name written twice, running HAProxy keeps the other one
 		{Steps: []Step{{Backs: seqBack(6, 1, "", false, "10.0.0.1", "10.0.0.1", "10.0.0.2")}, {Backs: seqBack(6, 1, "", false, "10.0.0.1", "10.0.0.1", "10.0.0.3")}}},
+	}
+	return append(in, corpusCerts()...)
+}
+
+func tlsHost(name, crt, content string) HostSpec {
+	return HostSpec{Name: name, Crt: crt, Content: content}
+}
+
+// corpusCerts: certificates renewed over the admin socket, every file must get its commands.
+func corpusCerts() []*Input {
+	b := seqBack(1, 1, "", false, "10.0.0.1")
+	return []*Input{
+		// one wildcard certificate replicated in two secrets (two files, byte-identical content,
+		// so one TLSHash), renewed in both in one update
+		{Steps: []Step{{Backs: b, Hosts: []HostSpec{tlsHost("a.ns1.local", "twin1", "wild-v1"), tlsHost("a.ns2.local", "twin2", "wild-v1")}},
+			{Hosts: []HostSpec{tlsHost("a.ns1.local", "twin1", "wild-v2"), tlsHost("a.ns2.local", "twin2", "wild-v2")}}}},
+		// the same, only one of the two renewed, then the other one catches up
+		{Steps: []Step{{Backs: b, Hosts: []HostSpec{tlsHost("a.ns1.local", "twin1", "wild-v1"), tlsHost("a.ns2.local", "twin2", "wild-v1")}},
+			{Hosts: []HostSpec{tlsHost("a.ns1.local", "twin1", "wild-v2")}},
+			{Hosts: []HostSpec{tlsHost("a.ns2.local", "twin2", "wild-v2")}}}},
+		// both renewed to different contents; three hosts on one file plus a twin of its content
+		{Steps: []Step{{Backs: b, Hosts: []HostSpec{tlsHost("h1.local", "shared", "s-v1"), tlsHost("h2.local", "shared", "s-v1"), tlsHost("h3.local", "shared", "s-v1"), tlsHost("h4.local", "twin4", "s-v1")}},
+			{Hosts: []HostSpec{tlsHost("h1.local", "shared", "s-v2"), tlsHost("h2.local", "shared", "s-v2"), tlsHost("h3.local", "shared", "s-v2"), tlsHost("h4.local", "twin4", "s-v2")}},
+			{Hosts: []HostSpec{tlsHost("h1.local", "shared", "s-v3"), tlsHost("h2.local", "shared", "s-v3"), tlsHost("h3.local", "shared", "s-v3"), tlsHost("h4.local", "twin4", "t-v3")}}}},
 	}
 }
 
